@@ -76,6 +76,7 @@ type Frame struct {
 	results  []Value // named results at Recover
 	callRes  map[string][]Value // results of contract-applied calls, key "<callee>#<n>"
 	callArgs map[string][]Value
+	afterN   map[string]int    // calls seen so far, per callee name, for 'after call' assumptions
 	parent   *Frame            // the frame this one is expanded inline into (nil for the function under verification)
 	unroll   map[*loopInfo]int // loops executed without cutting (concrete trip count): iterations so far
 }
@@ -96,6 +97,12 @@ func (fr *Frame) clone() *Frame {
 	}
 	n.defers = append([]deferred{}, fr.defers...)
 	n.active = append([]loopCtx{}, fr.active...)
+	if fr.afterN != nil {
+		n.afterN = make(map[string]int, len(fr.afterN))
+		for k, v := range fr.afterN {
+			n.afterN[k] = v
+		}
+	}
 	if fr.unroll != nil {
 		n.unroll = make(map[*loopInfo]int, len(fr.unroll))
 		for k, v := range fr.unroll {
@@ -699,6 +706,7 @@ func (fr *Frame) exec(st *State, b *ssa.BasicBlock, idx int) {
 		switch x := in.(type) {
 		case *ssa.Call:
 			outs := fr.call(st, &x.Call, x, false)
+			fr.afterCallAssumes(outs, &x.Call, x)
 			fr.continueAfter(outs, b, i, x)
 			return
 		case *ssa.If:
@@ -763,6 +771,57 @@ func (fr *Frame) continueAfter(outs []Outcome, b *ssa.BasicBlock, i int, dst ssa
 			f2.setResult(o.St, dst, o.Res)
 		}
 		f2.exec(o.St, b, i+1)
+	}
+}
+
+// afterCallAssumes: 'after call X#n: assume e' clauses of the function under verification, for calls
+// it makes directly. They are assumptions (reported as such), evaluated over the locals right after
+// the call returned.
+func (fr *Frame) afterCallAssumes(outs []Outcome, cc *ssa.CallCommon, dst ssa.Value) {
+	if fr.parent != nil || fr.ctr == nil {
+		return
+	}
+	name := ""
+	if cc.IsInvoke() {
+		name = cc.Method.Name()
+	} else if f := cc.StaticCallee(); f != nil {
+		name = f.Name()
+	}
+	if name == "" {
+		return
+	}
+	var cls []*Clause
+	for _, cl := range fr.ctr.Clauses {
+		if cl.Kind == "aftercall" && cl.Callee == name {
+			cls = append(cls, cl)
+		}
+	}
+	if len(cls) == 0 {
+		return
+	}
+	if fr.afterN == nil {
+		fr.afterN = map[string]int{}
+	}
+	fr.afterN[name]++
+	nth := fr.afterN[name]
+	for _, o := range outs {
+		if o.Panic || o.St.dead {
+			continue
+		}
+		saved, had := fr.regs[dst]
+		fr.setResult(o.St, dst, o.Res)
+		for _, cl := range cls {
+			if cl.CallN != 0 && cl.CallN != nth {
+				continue
+			}
+			o.St.assume(fr.localEnv(o.St).evalBool(cl.Expr))
+			fr.v.note("ASSUMED after call " + name + " in " + fr.fn.Name() + ": " + cl.Src)
+		}
+		if had {
+			fr.regs[dst] = saved
+		} else {
+			delete(fr.regs, dst)
+		}
 	}
 }
 
